@@ -11,6 +11,8 @@ import RedisVerif.Driver.C12
 import RedisVerif.Driver.C09
 import RedisVerif.Driver.C10
 import RedisVerif.Driver.C14
+import RedisVerif.Driver.C19
+import RedisVerif.Driver.C18
 
 open RedisVerif.Driver
 
@@ -47,4 +49,6 @@ def main (args : List String) : IO UInt32 := do
   | ["C09"] => loop stdin stdout C09.step; return 0
   | ["C10"] => loopState stdin stdout C10.step []; return 0
   | ["C14"] => loopState stdin stdout C14.step {}; return 0
+  | ["C19"] => loopState stdin stdout C19.step C19.St.init; return 0
+  | ["C18"] => loopState stdin stdout C18.step C18.St.init; return 0
   | _ => IO.eprintln "usage: rvdriver <property-id> < ops"; return 2
